@@ -204,7 +204,12 @@ func (fc *fileCtx) passMNode(n ast.Node, depth int, fn string) {
 						fc.keepAlive[id.Name+".Now"] = true
 						record("clock_"+strings.ToLower(name), site, fn)
 					case "After", "Tick", "NewTimer", "AfterFunc", "NewTicker":
-						rep.Unmodelled = append(rep.Unmodelled, siteRec{Kind: "time." + name, Site: site, Func: fn})
+						if fc.passY {
+							// a real timer inside the scheduled packages: the simulator cannot own it
+							rep.Unmodelled = append(rep.Unmodelled, siteRec{Kind: "time." + name, Site: site, Func: fn})
+						} else {
+							rep.Uncontrolled = append(rep.Uncontrolled, siteRec{Kind: "time." + name, Site: site, Func: fn})
+						}
 					}
 					return
 				case path == "reflect":
